@@ -43,7 +43,7 @@ def lab(n):
 
 def directed(rng: random.Random) -> dict:
     body: list = [{"k": "org", "e": E(rng.choice([0x8000, 0x018000, 0xC08000 if False else 0x028123]))}]
-    kind = rng.choice(["shadow_chain", "sibling_reuse", "qualified_forward", "qualified_backward", "leak_inner", "leak_sibling", "leak_macro",
+    kind = rng.choice(["shadow_chain", "sibling_reuse", "qualified_forward", "qualified_backward", "leak_inner", "leak_sibling", "leak_macro", "leak_macro_qualified",
                        "leak_loop", "symbol_kinds", "named_in_named", "macro_local_vs_outer", "shadow_unsized", "block_if_label", "named_in_loop", "named_in_macro",
                        "const_shadowed_by_later_inner", "symbol_kinds_unsized", "parameter_names_at_call_site", "application_expanding_to_nothing"])
     expect_reject = False
@@ -147,6 +147,10 @@ def directed(rng: random.Random) -> dict:
         expect_reject = True
         body += [{"k": "macro", "n": "macA", "ps": ["pa"], "b": [lab("hidden1"), {"k": "data", "d": "db", "es": [E("pa")]}]},
                  {"k": "call", "n": "macA", "as": [E(1)]}, dl(rng.choice(["hidden1", "pa"]))]
+    elif kind == "leak_macro_qualified":
+        expect_reject = True
+        body += [{"k": "macro", "n": "fillm", "ps": ["pa"], "b": [lab("first"), {"k": "data", "d": "db", "es": [E("pa")]}]},
+                 {"k": "call", "n": "fillm", "as": [E(1)]}, {"k": "data", "d": "dw", "es": [E(rng.choice(["fillm.first", "fillm.pa"]))]}]
     elif kind == "leak_loop":
         expect_reject = True
         body += [{"k": "for", "v": "itA", "a": E(0), "b": E(2), "body": [lab("hidden1"), nop]}, dl(rng.choice(["hidden1", "itA"]))]
